@@ -25,7 +25,7 @@ Compile-time options come from NV/Gen/C20.lean (`autoTrustBackbone`; AUTO_SETEUI
 no code depending on it - the plugin checks that).
 
 Nested creation (round 2): create() of a scripted object runs the op list the case attached to its file name
-(`Policy.script`), with the object under construction as actor and the uid/euid it has at that moment; the model
+(`Policy.script`; `Policy.co` is master::compile_object), with the object under construction as actor and the uid/euid it has at that moment; the model
 runs these scripts recursively (`exec`, bounded by fuel; with fuel 0 scripts are skipped) and emits one `StepRec`
 per SEGMENT (the events between two uid snapshots): creation segment, the nested ops' segments, result segment.
 Inside a create() script the harness refuses destruct/reload_object, and it never lets two live objects share a
@@ -103,6 +103,16 @@ inductive Op where
   | reload (target : Oid)
   deriving Repr, BEq, DecidableEq
 
+/-- what master::compile_object does for a path: no policy for that directory (returns 0, nothing logged) /
+    returns 0 / returns a non-object / raises an error / clones the template and returns the clone -/
+inductive CoAns where
+  | silent
+  | none
+  | nonobj (n : Int)
+  | err
+  | tmpl (p : Path)
+  deriving Repr, BEq, DecidableEq
+
 /-- master policy oracle: answers may depend on the step number (policies are switchable), on the name passed
     to creator_file, and on (object, uid) for valid_seteuid; `script` is the op list create() of the object with
     that file name runs (blueprint: its path, clone: path ++ "#") -/
@@ -110,6 +120,7 @@ structure Policy where
   cf : Nat → String → Ans
   vs : Nat → Oid → Name → Ans
   script : Nat → String → List Op
+  co : Nat → String → CoAns
 
 inductive Err where
   | noEuidLoad | noEuidClone | exportZero | badArg | policy
@@ -139,6 +150,8 @@ structure StepRec where
   snap : Option (List Obj) := none
   crash : Bool := false
   first : Bool := true          -- this segment starts the op (rendering only)
+  co : Option (String × CoAns) := none     -- master::compile_object was asked (path, what it did)
+  vsnap : List Oid := []        -- ids whose object is virtual (virtualp) at the snapshot
   deriving Repr, BEq, DecidableEq
 
 /-! registry: association list keyed by `oid` -/
@@ -159,7 +172,23 @@ structure World where
   loaded : List String          -- names of blueprints in the driver's object table
   half : List String            -- subset of `loaded`: entered into the table, never given uids by the master nor created
   cloneSeq : Nat                -- make_new_name counter
+  virt : List String := []      -- names in the object table that are virtual objects (O_VIRTUAL)
+  vSeq : Nat := 0               -- the verification master's counter of compiled objects (`v<n>`)
+  curName : List (Oid × String) := []   -- objects the driver renamed (virtual objects): current file_name
+  virtOids : List Oid := []     -- registered objects with O_VIRTUAL
   deriving Repr
+
+/-- file_name() now: virtual objects were renamed after their creation -/
+def World.nameOf (w : World) (o : Obj) : String :=
+  match w.curName.find? (fun e => e.1 = o.oid) with
+  | some e => e.2
+  | none => o.name
+
+/-- registry id of the object that carries `name` now -/
+def World.oidOfName (w : World) (name : String) (dflt : Oid) : Oid :=
+  match w.curName.find? (fun e => e.2 = name) with
+  | some e => e.1
+  | none => dflt
 
 def World.init (cfg : Cfg) : World :=
   { objs := [{ oid := masterOid, name := "/c20/master", uid := some cfg.root, euid := some cfg.root }],
@@ -229,7 +258,7 @@ def doLoad (cfg : Cfg) (pol : Policy) (i : Nat) (w : World) (A : Obj) (p : Path)
       let o : Obj := { oid := p.oid, name := p.name, uid := some "NONAME", euid := none }
       ({ w with objs := setO w.objs o, half := w.half.filter (· ≠ p.name) },
        [{ name := p.name, ans := none, made := some o }], none, .oid p.oid)
-    else (w, [], none, .oid p.oid)
+    else (w, [], none, .oid (w.oidOfName p.name p.oid))
   else if A.oid ≠ masterOid ∧ A.euid = none then (w, [], none, .err .noEuidLoad)
   else if p.exists = false then (w, [], none, .int 0)
   else
@@ -243,14 +272,6 @@ def clonePre (w : World) (A : Obj) (newOid : Oid) (p : Path) : Option Res :=
   else if A.oid ≠ masterOid ∧ A.euid = none then some (.err .noEuidClone)
   else none
 
-/-- find_or_load_object of the blueprint inside clone_object -/
-def cloneBp (cfg : Cfg) (pol : Policy) (i : Nat) (w : World) (A : Obj) (p : Path) : World × List Creation × Bool :=
-  if p.name ∈ w.loaded then (w, [], true)
-  else if p.exists = false then (w, [], false)
-  else
-    let x := create cfg pol i w A p.oid p.name true
-    (x.1, [x.2.1], x.2.2)
-
 /-- the clone itself: make_new_name, give_uid_to_object, create() -/
 def cloneSelf (cfg : Cfg) (pol : Policy) (i : Nat) (w : World) (A : Obj) (newOid : Oid) (p : Path) :
     World × Creation × Bool :=
@@ -261,7 +282,9 @@ def doDest (w : World) (t : Oid) : World × List Creation × Option (Oid × Name
   | none => (w, [], none, .nobj)
   | some T =>
     if t = masterOid then (w, [], none, .nobj)
-    else ({ w with objs := delO w.objs t, loaded := w.loaded.filter (· ≠ T.name) }, [], none, .int 1)
+    else ({ w with objs := delO w.objs t, loaded := w.loaded.filter (· ≠ w.nameOf T),
+                   virt := w.virt.filter (· ≠ w.nameOf T), curName := w.curName.filter (·.1 ≠ t),
+                   virtOids := w.virtOids.filter (· ≠ t) }, [], none, .int 1)
 
 def doReload (w : World) (t : Oid) : World × List Creation × Option (Oid × Name × Ans) × Res :=
   match getO w.objs t with
@@ -270,14 +293,18 @@ def doReload (w : World) (t : Oid) : World × List Creation × Option (Oid × Na
     if t = masterOid then (w, [], none, .nobj)
     else
       let o : Obj := { T with euid := none }
-      ({ w with objs := setO w.objs o }, [{ name := T.name, ans := none, made := some o }], none, .int 1)
+      ({ w with objs := setO w.objs o }, [{ name := w.nameOf T, ans := none, made := some o }], none, .int 1)
 
 /-- one segment record: what happened between two uid snapshots, in the context (actor, op) of the innermost
     running op; closed by the snapshot of every registered object (getuid on each) -/
 def seg (w1 : World) (a : Oid) (op : Op) (vs : Option (Oid × Name × Ans)) (cs : List Creation) (res : Option Res)
     (first : Bool) : StepRec :=
   { actor := a, op := op, vs := vs, creations := cs, res := res, snap := some w1.objs,
-    crash := crashes cs w1.objs, first := first }
+    crash := crashes cs w1.objs, first := first, vsnap := w1.virtOids }
+
+/-- segment in which master::compile_object was asked -/
+def segCo (w1 : World) (a : Oid) (op : Op) (first : Bool) (co : String × CoAns) : StepRec :=
+  { seg w1 a op none [] none first with co := some co }
 
 /-- file-name key of the create() script: clones share `<path>#` -/
 def scriptKey (name : String) : String :=
@@ -287,6 +314,8 @@ def scriptKey (name : String) : String :=
 
 /-- runner of a create() script: world, acting object id, script key -/
 abbrev Sub := World → Oid → String → World × List StepRec
+/-- runner of one (nested) op -/
+abbrev Run := World → Oid → Op → World × List StepRec
 
 def single (a : Oid) (op : Op) (x : World × List Creation × Option (Oid × Name × Ans) × Res) : World × List StepRec :=
   (x.1, [seg x.1 a op x.2.2.1 x.2.1 (some x.2.2.2) true])
@@ -296,14 +325,63 @@ def createdNow : List Creation → Option Obj
   | [c] => if c.ans.isSome then c.made else none
   | _ => none
 
-def execLoad (cfg : Cfg) (pol : Policy) (i : Nat) (sub : Sub) (w : World) (a : Oid) (A : Obj) (p : Path) :
+/-! virtual objects -/
+
+inductive VOut where
+  | obj (v : Oid)
+  | zero
+  | err
+  deriving Repr, BEq, DecidableEq
+
+def VOut.res : VOut → Res
+  | .obj v => .oid v
+  | .zero => .int 0
+  | .err => .err .policy
+
+/-- load_virtual_object: master::compile_object(path) on behalf of the running op (a, op).  With a template policy
+    the verification master clones the template as `v<n>` (an op of the master like any other, with everything
+    that nests in it) and returns it; the driver renames that object - to the virtual path (load_object), or to
+    `<path>#<n>` (the virtual branch of clone_object).  No give_uid_to_object: it keeps the uids the master's clone got. -/
+def virtCore (pol : Policy) (i : Nat) (run : Run) (w : World) (a : Oid) (op : Op) (first : Bool) (p : Path)
+    (asClone : Bool) : World × List StepRec × VOut :=
+  match pol.co i p.name with
+  | .silent => (w, [], .zero)
+  | .none => (w, [segCo w a op first (p.name, .none)], .zero)
+  | .nonobj n => (w, [segCo w a op first (p.name, .nonobj n)], .zero)
+  | .err => (w, [segCo w a op first (p.name, .err)], .err)
+  | .tmpl t =>
+    let v : Oid := "v" ++ toString (w.vSeq + 1)
+    let w1 : World := { w with vSeq := w.vSeq + 1 }
+    let y := run w1 masterOid (.clone v t)
+    let ok : Bool := decide ((y.2.getLast?.bind (·.res)) = some (.oid v))
+    let s1 := segCo w1 a op first (p.name, .tmpl t)
+    if ok = true ∧ (getO y.1.objs v).isSome then
+      let nm := if asClone then p.name ++ "#" ++ toString y.1.cloneSeq else p.name
+      let w3 : World :=
+        { y.1 with curName := (v, nm) :: y.1.curName, virtOids := v :: y.1.virtOids,
+                   loaded := if asClone then y.1.loaded else p.name :: y.1.loaded,
+                   virt := if asClone then y.1.virt else p.name :: y.1.virt,
+                   cloneSeq := if asClone then y.1.cloneSeq + 1 else y.1.cloneSeq }
+      (w3, s1 :: y.2, .obj v)
+    else (y.1, s1 :: y.2, .zero)
+
+/-- load_object reaches the file system check with no file there: the conditions under which compile_object is asked -/
+def needsCompile (w : World) (A : Obj) (p : Path) : Bool :=
+  decide (¬ ((p.name ∉ w.loaded ∨ p.name ∈ w.half) ∧ getO w.objs p.oid ≠ none) ∧ p.name ∉ w.loaded ∧
+    ¬ (A.oid ≠ masterOid ∧ A.euid = none) ∧ p.exists = false)
+
+def execLoad (cfg : Cfg) (pol : Policy) (i : Nat) (run : Run) (sub : Sub) (w : World) (a : Oid) (A : Obj) (p : Path) :
     World × List StepRec :=
-  let x := doLoad cfg pol i w A p
-  match createdNow x.2.1 with
-  | none => single a (.load p) x
-  | some o =>
-    let y := sub x.1 o.oid p.name
-    (y.1, seg x.1 a (.load p) none x.2.1 none true :: y.2 ++ [seg y.1 a (.load p) none [] (some x.2.2.2) false])
+  if needsCompile w A p = true then
+    let v := virtCore pol i run w a (.load p) true p false
+    (v.1, v.2.1 ++ [seg v.1 a (.load p) none [] (some v.2.2.res) v.2.1.isEmpty])
+  else
+    let x := doLoad cfg pol i w A p
+    match createdNow x.2.1 with
+    | none => single a (.load p) x
+    | some o =>
+      let y := sub x.1 o.oid p.name
+      (y.1, seg x.1 a (.load p) none x.2.1 none true :: y.2 ++ [seg y.1 a (.load p) none [] (some x.2.2.2) false])
 
 /-- second half of clone_object from world `w` (after the blueprint's create() script): the clone is made by the
     same object `A'` with the uids it has now, then the clone's create() script runs -/
@@ -316,25 +394,43 @@ def cloneTail (cfg : Cfg) (pol : Policy) (i : Nat) (sub : Sub) (w : World) (a : 
     let y := sub c.1 newOid (p.name ++ "#")
     (y.1, seg c.1 a op none [c.2.1] none first :: y.2 ++ [seg y.1 a op none [] (some (.oid newOid)) false])
 
-def execClone (cfg : Cfg) (pol : Policy) (i : Nat) (sub : Sub) (w : World) (a : Oid) (A : Obj) (newOid : Oid)
-    (p : Path) : World × List StepRec :=
+/-- clone_object once find_or_load_object has returned the blueprint (world `w`, segments so far not empty iff
+    `first = false`): the repeated euid test (third fix: commit), then the virtual branch or the ordinary clone -/
+def clonePhase2 (cfg : Cfg) (pol : Policy) (i : Nat) (run : Run) (sub : Sub) (w : World) (a : Oid) (newOid : Oid)
+    (p : Path) (first : Bool) : World × List StepRec :=
+  let op := Op.clone newOid p
+  match getO w.objs a with
+  | none => (w, [seg w a op none [] (some .nobj) first])        -- the caller is gone (not reachable: see Keeps)
+  | some A' =>
+    if A'.oid ≠ masterOid ∧ A'.euid = none then (w, [seg w a op none [] (some (.err .noEuidClone)) first])
+    else if p.name ∈ w.virt then
+      let v := virtCore pol i run w a op first p true
+      (v.1, v.2.1 ++ [seg v.1 a op none [] (some v.2.2.res) (first && v.2.1.isEmpty)])
+    else cloneTail cfg pol i sub w a A' newOid p first
+
+def execClone (cfg : Cfg) (pol : Policy) (i : Nat) (run : Run) (sub : Sub) (w : World) (a : Oid) (A : Obj)
+    (newOid : Oid) (p : Path) : World × List StepRec :=
   let op := Op.clone newOid p
   match clonePre w A newOid p with
   | some r => (w, [seg w a op none [] (some r) true])
   | none =>
-    let b := cloneBp cfg pol i w A p
-    if b.2.2 = false then
-      (b.1, [seg b.1 a op none b.2.1 (some (if b.2.1.isEmpty then .int 0 else .err .policy)) true])
+    if p.name ∈ w.loaded then clonePhase2 cfg pol i run sub w a newOid p true
+    else if p.exists = false then
+      -- find_or_load_object -> load_object -> no file: a virtual object
+      let v := virtCore pol i run w a op true p false
+      match v.2.2 with
+      | .obj _ =>
+        let t := clonePhase2 cfg pol i run sub v.1 a newOid p false
+        (t.1, v.2.1 ++ t.2)
+      | out => (v.1, v.2.1 ++ [seg v.1 a op none [] (some out.res) v.2.1.isEmpty])
     else
-      match b.2.1 with
-      | [] => cloneTail cfg pol i sub b.1 a A newOid p true
-      | _ :: _ =>
+      let b := create cfg pol i w A p.oid p.name true
+      if b.2.2 = false then (b.1, [seg b.1 a op none [b.2.1] (some (.err .policy)) true])
+      else
         -- blueprint created just now: its segment and its create() script
         let y := sub b.1 p.oid p.name
-        -- current_object is the same object; its uids are read when give_uid_to_object runs
-        let A' := (getO y.1.objs a).getD A
-        let t := cloneTail cfg pol i sub y.1 a A' newOid p false
-        (t.1, seg b.1 a op none b.2.1 none true :: y.2 ++ t.2)
+        let t := clonePhase2 cfg pol i run sub y.1 a newOid p false
+        (t.1, seg b.1 a op none [b.2.1] none true :: y.2 ++ t.2)
 
 def execReload (sub : Sub) (w : World) (a : Oid) (t : Oid) : World × List StepRec :=
   let x := doReload w t
@@ -342,15 +438,21 @@ def execReload (sub : Sub) (w : World) (a : Oid) (t : Oid) : World × List StepR
   | [c] =>
     (match c.made with
      | some o =>
-       let y := sub x.1 o.oid (scriptKey o.name)
+       let y := sub x.1 o.oid (scriptKey (w.nameOf o))
        (y.1, seg x.1 a (.reload t) none x.2.1 none true :: y.2 ++ [seg y.1 a (.reload t) none [] (some x.2.2.2) false])
      | none => single a (.reload t) x)
   | _ => single a (.reload t) x
 
-/-- one op of `a`, with `sub` running the create() scripts of the objects it makes; `nested` = the op is itself
-    part of a create() script (destruct / reload_object refused by the harness) -/
-def execWith (cfg : Cfg) (pol : Policy) (i : Nat) (sub : Sub) (nested : Bool) (w : World) (a : Oid) (op : Op) :
-    World × List StepRec :=
+/-- inside a create() script the harness lets reload_object through only for objects whose own create() has no script -/
+def reloadRefused (pol : Policy) (i : Nat) (w : World) (t : Oid) : Bool :=
+  match getO w.objs t with
+  | some T => !(pol.script i (scriptKey (w.nameOf T))).isEmpty
+  | none => false
+
+/-- one op of `a`; `run` runs the nested op of the master inside compile_object, `sub` the create() scripts of the
+    objects made; `nested` = the op is itself part of a create() script (destruct refused by the harness) -/
+def execWith (cfg : Cfg) (pol : Policy) (i : Nat) (run : Run) (sub : Sub) (nested : Bool) (w : World) (a : Oid)
+    (op : Op) : World × List StepRec :=
   match getO w.objs a with
   | none => (w, [seg w a op none [] (some .nobj) true])
   | some A =>
@@ -358,23 +460,27 @@ def execWith (cfg : Cfg) (pol : Policy) (i : Nat) (sub : Sub) (nested : Bool) (w
     | .seteuidInt n => single a op (doSeteuidInt w A n)
     | .seteuidStr s => single a op (doSeteuidStr pol i w A s)
     | .exportUid t => single a op (doExport w A t)
-    | .load p => execLoad cfg pol i sub w a A p
-    | .clone o p => execClone cfg pol i sub w a A o p
+    | .load p => execLoad cfg pol i run sub w a A p
+    | .clone o p => execClone cfg pol i run sub w a A o p
     | .dest t => if nested then (w, [seg w a op none [] (some .nobj) true]) else single a op (doDest w t)
-    | .reload t => if nested then (w, [seg w a op none [] (some .nobj) true]) else execReload sub w a t
+    | .reload t =>
+      if nested = true ∧ reloadRefused pol i w t = true then (w, [seg w a op none [] (some .nobj) true])
+      else execReload sub w a t
 
-def runScript (f : World → Oid → Op → World × List StepRec) (w : World) (o : Oid) : List Op → World × List StepRec
+def runScript (f : Run) (w : World) (o : Oid) : List Op → World × List StepRec
   | [] => (w, [])
   | op :: ops =>
     let r := f w o op
     let r2 := runScript f r.1 o ops
     (r2.1, r.2 ++ r2.2)
 
-/-- ops with nested create() scripts, recursion bounded by fuel (fuel 0: scripts are skipped) -/
+/-- ops with nested create() scripts and nested master ops, recursion bounded by fuel (fuel 0: scripts are skipped,
+    the master's compile_object makes nothing) -/
 def exec (cfg : Cfg) (pol : Policy) (i : Nat) : Nat → Bool → World → Oid → Op → World × List StepRec
-  | 0, nested, w, a, op => execWith cfg pol i (fun w _ _ => (w, [])) nested w a op
+  | 0, nested, w, a, op => execWith cfg pol i (fun w _ _ => (w, [])) (fun w _ _ => (w, [])) nested w a op
   | fuel + 1, nested, w, a, op =>
-    execWith cfg pol i (fun w o key => runScript (exec cfg pol i fuel true) w o (pol.script i key)) nested w a op
+    execWith cfg pol i (exec cfg pol i fuel true)
+      (fun w o key => runScript (exec cfg pol i fuel true) w o (pol.script i key)) nested w a op
 
 /-- one harness step `do <actor> <op>` -/
 def step (cfg : Cfg) (pol : Policy) (fuel : Nat) (i : Nat) (w : World) (a : Oid) (op : Op) : World × List StepRec :=
